@@ -38,10 +38,12 @@ SemNext == /\ Cardinality(st.R) < MaxRules
 
 Dflts == {"allow", "deny"}
 SemT(v, d) == TableOf(st.R, v, d, QNames, FamMethods(st.fam))
-InvExactWins       == Profile = "sem" => \A v \in Variants, d \in Dflts : ExactWins(st.R, SemT(v, d), QNames)
-InvLongestPrefix   == Profile = "sem" => \A v \in Variants, d \in Dflts : LongestPrefixWins(st.R, SemT(v, d), QNames)
-InvDenyOverrides   == Profile = "sem" => \A v \in Variants, d \in Dflts : DenyOverrides(st.R, SemT(v, d), QNames)
-InvDefaultDecides  == Profile = "sem" => \A v \in Variants, d \in Dflts : DefaultDecides(st.R, SemT(v, d), QNames, d)
+\* the clauses only look at the read / write methods of the named kinds (no intention methods: one variant suffices)
+RWT(d) == TableOf(st.R, "merged-fields", d, QNames, FamMethods(st.fam) \cap ({ReadM[k] : k \in NamedKinds} \cup {WriteM[k] : k \in NamedKinds}))
+InvExactWins       == Profile = "sem" => \A d \in Dflts : ExactWins(st.R, RWT(d), QNames)
+InvLongestPrefix   == Profile = "sem" => \A d \in Dflts : LongestPrefixWins(st.R, RWT(d), QNames)
+InvDenyOverrides   == Profile = "sem" => \A d \in Dflts : DenyOverrides(st.R, RWT(d), QNames)
+InvDefaultDecides  == Profile = "sem" => \A d \in Dflts : DefaultDecides(st.R, RWT(d), QNames, d)
 InvMergeOrderFree  == Profile = "sem" => MergeOrderFree(st.R)
 \* the two accepted readings of intention merging differ only when explicit and implied levels mix in one slot
 InvVariantsAgree ==
@@ -92,9 +94,10 @@ HNext == /\ Len(hist) <= MaxDepth
          /\ \E cmd \in HCmds : st' = ApplyH(st, cmd) /\ hist' = Append(hist, cmd)
 
 \* the decision table of the last resolved token is the table of its OWN rules
+HMethods == FamMethods("service") \cup FamMethods("key") \cup FamMethods("node")   \* the kinds HRuleU and identities touch
 NoCrossTalk ==
   Profile = "hist" => \A d \in Dflts :
-     Table(st.last.rules, "merged-fields", d, QNames) = Table(st.last.own, "merged-fields", d, QNames)
+     TableOf(st.last.rules, "merged-fields", d, QNames, HMethods) = TableOf(st.last.own, "merged-fields", d, QNames, HMethods)
 InvCachesSound == Profile = "hist" => CachesSound(st.c)
 
 ---------------------------------------------------------------------------
